@@ -674,6 +674,48 @@ def stage_conc(run, cfg, cq):
             reported += 1
 
 
+def build_api():
+    """the public-API harness: plain `go build`, no tag, no overlay — it must build whenever /repo does"""
+    with Lock("go"):
+        gosum = os.path.join(HARNESS, "go.sum")
+        if not os.path.exists(gosum) and os.path.exists(os.path.join(REPO, "go.sum")):
+            shutil.copy(os.path.join(REPO, "go.sum"), gosum)
+        os.makedirs(os.path.join(WORK, "bin"), exist_ok=True)
+        return sh(["go", "build", "-o", os.path.join(WORK, "bin", "api"), "./cmd/api"], cwd=HARNESS, env=GOENV, timeout=900)
+
+
+def stage_api(run, cfg, aq):
+    """monitors over the public API only (harness/cmd/api): real code, no instrumentation"""
+    comp = aq["comp"]
+    decisive = aq.get("decisive", lambda d: d["op"].startswith("mon "))
+    trace = os.path.join(run.work, comp + ".trace")
+    stats = os.path.join(run.work, comp + ".stats.json")
+    args = [os.path.join(WORK, "bin", "api"), comp, "-seed", str(run.seed), "-tier", run.tier, "-out", trace, "-stats", stats]
+    crashed, why = run_harness(args, trace, stats, aq.get("timeout", 1200))
+    if crashed:
+        decisive0 = decisive
+        decisive = lambda d: d["op"].startswith("mon HANG") or decisive0(d)
+        run.cov.setdefault("notes", []).append(f"harness api {comp} died: {why}")
+    diffs, done = run_driver("monitors", trace)
+    st = json.load(open(stats))
+    run.cov["evaluations"] += st["cases"]
+    run.cov["distinct_nontrivial"] += st["distinct_nontrivial"]
+    run.cov["correspondence"][comp] = dict(traces=st["cases"], events=st["ops"], distinct_traces=st["distinct_cases"],
+                                           distinct_nontrivial=st["distinct_nontrivial"], event_kinds=st["op_kinds"],
+                                           branches=st["branches"], driver_lines=int(done["lines"]), diffs=int(done["diffs"]),
+                                           note="public API only, no instrumentation")
+    reported = 0
+    for d in diffs:
+        if not (decisive(d) or crash_diff(d)) or reported >= 3:
+            continue
+        hdr, cops = extract_case(trace, d["case"], d["line"])
+        run.violation(f"{comp}: case({hdr}) -> `{d['op']}`: {d['detail']}",
+                      dict(kind="input", component=comp, driver="monitors", header=hdr, events=cops, diff=d, api=True), True)
+        reported += 1
+    if not diffs and os.environ.get("VERIF_KEEP") != "1":
+        os.remove(trace)
+
+
 def run_property(pid, tier):
     from . import props
     if pid not in props.PROPS:
@@ -726,9 +768,17 @@ def _run_property(pid, tier):
                 raise Broken("/repo does not build:\n" + out2[-3000:])
             # /repo builds but the harness (package-internal accessors / API use) no longer fits it:
             # the tie between model and code cannot be established any more
-            run.lean and None
-            run.violation("harness no longer builds against /repo (accessor or API shape changed): " + out.strip().split("\n")[-1][:300],
-                          dict(kind="correspondence", broken="go build -tags verif -overlay (harness vs /repo)", output=out[-3000:]), False)
+            # search with what still builds: the monitors that use the public API only
+            if cfg.get("api"):
+                rc3, out3 = build_api()
+                if rc3 == 0:
+                    for aq in cfg["api"]:
+                        stage_api(run, cfg, aq)
+            if not run.violations:
+                run.violation("harness no longer builds against /repo (accessor or API shape changed): " + out.strip().split("\n")[-1][:300],
+                              dict(kind="correspondence", broken="go build -tags verif -overlay (harness vs /repo)", output=out[-3000:]), False)
+            else:
+                log("# the instrumented harness no longer builds against /repo as well: " + out.strip().split("\n")[-1][:300])
             return run.finish(level=cfg.get("level", "proof"))
         # the sources this property is anchored in differ from the state the models were validated against:
         # not an alarm, but a reason to look harder (two more PRNG streams) on this run
@@ -744,6 +794,12 @@ def _run_property(pid, tier):
                 stage_seq(run, cfg, sq)
             for cq in cfg.get("conc", []):
                 stage_conc(run, cfg, cq)
+            if cfg.get("api"):
+                rc3, out3 = build_api()
+                if rc3 != 0:
+                    raise Broken("public-API harness does not build:\n" + out3[-2000:])
+                for aq in cfg["api"]:
+                    stage_api(run, cfg, aq)
             for extra in cfg.get("stages", []):
                 extra(run, cfg)
             if run.violations:
